@@ -18,6 +18,7 @@ type C04Payload struct {
 	Fault     *ArgFault          `json:"fault,omitempty"`
 	Argv      []BStr             `json:"argv,omitempty"`
 	Argv0     []BStr             `json:"argv0,omitempty"` // adversarial mode: an earlier ParseArgs on the same parser
+	HasFirst  bool               `json:"has_first,omitempty"`
 	Fd1Faults []simrt.WriteFault `json:"fd1_faults,omitempty"`
 	Fd2Faults []simrt.WriteFault `json:"fd2_faults,omitempty"`
 	EmptyComp bool               `json:"empty_completion_env,omitempty"` // GO_FLAGS_COMPLETION="" must behave like unset
@@ -121,6 +122,7 @@ func (propC04) Gen(r *Rng, idx int, tier string) *Scenario {
 		ar := r.Fork("argv")
 		p.Argv = bstrs(genArgvAdversarial(ar, sc.Decl, ar.Range(0, 8)))
 		if ar.Chance(1, 4) {
+			p.HasFirst = true
 			p.Argv0 = bstrs(genArgvAdversarial(ar, sc.Decl, ar.Range(0, 6)))
 		}
 		// some environment defaults, convertible or not
@@ -175,7 +177,7 @@ func c04Run(sc *Scenario, argv []string, callee []CalleeFault, env map[string]st
 		op.Fd1Faults, op.Fd2Faults = sc.C04.Fd1Faults, sc.C04.Fd2Faults
 	}
 	s2.Ops = []Op{op}
-	if sc.C04 != nil && sc.C04.Mode == "adversarial" && sc.C04.Argv0 != nil {
+	if sc.C04 != nil && sc.C04.Mode == "adversarial" && sc.C04.HasFirst {
 		s2.Ops = []Op{{Kind: "parse", Argv: sc.C04.Argv0}, op}
 	}
 	return Execute(&s2, nil)
@@ -432,8 +434,8 @@ func (propC04) Reductions(sc *Scenario) []func(*Scenario) bool {
 	if p.EmptyComp {
 		out = append(out, func(s *Scenario) bool { s.C04.EmptyComp = false; return true })
 	}
-	if p.Argv0 != nil {
-		out = append(out, func(s *Scenario) bool { s.C04.Argv0 = nil; return true })
+	if p.HasFirst {
+		out = append(out, func(s *Scenario) bool { s.C04.Argv0, s.C04.HasFirst = nil, false; return true })
 		for i := range p.Argv0 {
 			i := i
 			out = append(out, func(s *Scenario) bool {
